@@ -1,3 +1,4 @@
+import functools
 from typing import Optional
 from xml.etree import ElementTree
 from xml.etree.ElementTree import Element
@@ -170,20 +171,12 @@ class FeatureIDEReader(TextToModel):
             node.right.left = self._parse_rule(rule[1]).root
             node.right.right = self._parse_rule(rule[0]).root
 
-        elif rule.tag == FeatureIDEReader.TAG_DISJ:
-            if len(rule) > 1:
-                node = Node(ASTOperation.OR)
-                node.left = self._parse_rule(rule[0]).root
-                node.right = self._parse_rule(rule[1]).root
-
-            else:
-                node = self._parse_rule(rule[0]).root
-
-        elif rule.tag == FeatureIDEReader.TAG_CONJ:
-            if len(rule) > 1:
-                node = Node(ASTOperation.AND)
-                node.left = self._parse_rule(rule[0]).root
-                node.right = self._parse_rule(rule[1]).root
-            else:
-                node = self._parse_rule(rule[0]).root
+        elif rule.tag in (FeatureIDEReader.TAG_DISJ, FeatureIDEReader.TAG_CONJ):
+            # disj and conj are n-ary: fold all the operands
+            operation = (ASTOperation.OR if rule.tag == FeatureIDEReader.TAG_DISJ
+                         else ASTOperation.AND)
+            operands = [self._parse_rule(operand).root for operand in rule]
+            node = functools.reduce(lambda left, right: Node(operation, left, right), operands)
+        else:
+            raise FlamaException(f"Unsupported constraint element in FeatureIDE model: {rule.tag}")
         return AST(node)
